@@ -234,7 +234,12 @@ func trimZeros(c []int) []int {
 }
 
 // Run is TestCheck of C12 and of C13.
-func Run(t *testing.T, prop string) {
+func Run(t *testing.T, prop string) { RunWith(t, prop, nil) }
+
+// RunWith is Run plus a sequential part of the check that runs first, inside the
+// bubble with the scheduler inactive (every goroutine runs freely, synctest.Wait()
+// is its quiescence detector). expired reports the real-clock deadline.
+func RunWith(t *testing.T, prop string, extra func(run *vk.Run, expired func() bool)) {
 	run := vk.Start(prop, "model_checking")
 	defer run.Finish()
 	run.Rule("every schedule with at most delay_bound delays (delay-bounded DFS, sched.DelayExplorer: reference = the deterministic scheduler 'running thread while enabled, else lowest logical thread id'; taking the i-th other enabled thread costs i delays, a clock tick 1; a writer fault is a data choice from a separate budget of 1) over all sync/atomic/close/cancel points of the instrumented resolve package, the harness points before every upstream call and inside writer calls, of each actor-program scenario on a fresh real Resolver; distinct = distinct (scenario, per-subscriber delivered sequence / terminal calls / completion, starts, registry sizes, reporter balances)")
@@ -274,6 +279,10 @@ func Run(t *testing.T, prop string) {
 	synctest.Test(t, func(t *testing.T) {
 		s := sched.New()
 		install(s)
+		if extra != nil {
+			extra(run, expired)
+			synctest.Wait()
+		}
 		scs := Scenarios(prop, thorough)
 		run.Bound("scenarios", len(scs))
 		best := map[string]*found{}
